@@ -49,6 +49,8 @@ def run(tier, seed):
     ucs = c06.fam_patterns(4)[seed % 4::4] if not th else c06.fam_patterns(5)[seed % 2::2]
     behs, st = c06.enumerate_uc(ucs)
     chk.add_tlc(st)
+    # (an undeclared initial state is accepted by the constructor only while min_downtime <= 1 main time unit: not comparable across units)
+    ucs = [c for c in ucs if not (c['run0'] == 0 and c['off0'] == 0 and c['mindown'] > 0)]
     for c in ucs:
         reach = {tuple(bool(s_['on']) for s_ in b['steps']) for b in behs.get(c['id'], [])}
         for m in ('d', 'min'):
